@@ -194,7 +194,9 @@ def finish(ctx: Ctx, explanation: str, assumptions: List[str], selftest: Optiona
         f"{ctx.prop} [{ctx.tier}]: {len(ctx.instances)} rule instances over {len(per_rule)} rules, "
         f"{len(fails)} failing ({len(known_hit)} known, {len(viol)} new); "
         + (f"selftest {selftest.get('killed', 0)}(+{selftest.get('fail_closed', 0)} fail-closed)/{selftest.get('breaking', 0)} breaking variants detected, "
-           f"{selftest.get('silent', 0)}/{selftest.get('benign', 0)} benign twins silent; " if selftest else "")
+           f"{selftest.get('silent', 0)}/{selftest.get('benign', 0)} benign twins silent; "
+           + (f"verdict invariant under {selftest['invariance']['passed']}/{selftest['invariance']['total']} whole-repository rewrites; "
+              if selftest.get("invariance") else "") if selftest else "")
         + f"{ev['wall_s']}s"
     )
     if viol:
